@@ -34,6 +34,15 @@ const (
 	overrideUnsafe
 )
 
+// startPrint prepares the buffer for the literal parts of a print
+// call: they are safe, unless an enclosing Unsafe() forces everything
+// that is printed to be unsafe.
+func (p *pp) startPrint() {
+	if p.override != overrideUnsafe {
+		p.buf.SetMode(b.SafeEscaped)
+	}
+}
+
 func (p *pp) startUnsafe() restorer {
 	prevMode := p.buf.GetMode()
 	if p.override != overrideSafe {
